@@ -22,7 +22,8 @@ REQUIRED_THEOREMS = ['Properties.C16.evalDual_sound', 'Properties.C16.rq_interio
     "Properties.C16.lu_forward_dual_sound", "Properties.C16.lu_logabsdet_dual_sound", "Properties.C16.lu_logabsdet_dual_sound'", "Properties.C16.lu_forward_not_differentiable_at_threshold", "Properties.C16.batchnorm_eval_dual_sound", "Properties.C16.actnorm_dual_sound", "Properties.C16.actnorm_dual_sound_d2", "Properties.C16.lu_inverse_dual_sound_input",
     "Properties.C16.hh_forward_dual_sound", "Properties.C16.hh_inverse_dual_sound", "Properties.C16.hh_forward_not_differentiable_at_zero_q", "Properties.C16.hh_matrix_dual_sound", "Properties.C16.qr_forward_dual_sound", "Properties.C16.qr_logabsdet_dual_sound", "Properties.C16.qr_inverse_dual_sound", "Properties.C16.qr_weight_dual_sound", "Properties.C16.qr_weight_inverse_dual_sound", "Properties.C16.svd_forward_dual_sound", "Properties.C16.svd_logabsdet_dual_sound", "Properties.C16.svd_inverse_dual_sound", "Properties.C16.svd_forward_not_differentiable_at_threshold", "Properties.C16.svd_weight_dual_sound", "Properties.C16.svd_weight_inverse_dual_sound", "Properties.C16.conv_forward_dual_sound", "Properties.C16.conv_inverse_dual_sound", "Properties.C16.lu_weight_dual_sound", "Properties.C16.lu_weight_inverse_dual_sound",
     "Properties.C16.standard_normal_logprob_dual_sound", "Properties.C16.diagNormal_logprob_dual_sound", "Properties.C16.dualSound_compStage", "Properties.C16.dualSound_luStage", "Properties.C16.dualSound_actStage", "Properties.C16.dualSound_bnEvalStage", "Properties.C16.dualSound_qrStage", "Properties.C16.dualSound_svdStage", "Properties.C16.flowLogProbExec_dual_curve", "Properties.C16.flow_logprob_dual_sound", "Properties.C16.flow_act_lu_logprob_dual_sound", "Properties.C16.flow_act_lu_accepted",
-    "Properties.C16.nonlinApply_poly", "Properties.C16.dualSound_nonlinStage_affine", "Properties.C16.dualSound_nonlinStage_exp", "Properties.C16.dualSound_nonlinStage_leakyRelu", "Properties.C16.dualSound_nonlinStage_tanh", "Properties.C16.dualSound_nonlinStage_sigmoid", "Properties.C16.leakyStage_not_dual_sound_at_kink", "Properties.C16.dualSoundOn_compStage", "Properties.C16.dualSoundNet_affNet", "Properties.C16.dualSound_couplingStage_of_el", "Properties.C16.dualSound_couplingStage_affine", "Properties.C16.dualSound_couplingStage_additive", "Properties.C16.flow_glow_block_logprob_dual_sound", "Properties.C16.flow_glow_block_accepted", "Properties.C16.dualSoundNear_compStage", "Properties.C16.flow_logprob_dual_sound_near", "Properties.C16.dualSoundNear_nonlinStage_exp_inv", "Properties.C16.expInvStage_not_dual_sound",]
+    "Properties.C16.nonlinApply_poly", "Properties.C16.dualSound_nonlinStage_affine", "Properties.C16.dualSound_nonlinStage_exp", "Properties.C16.dualSound_nonlinStage_leakyRelu", "Properties.C16.dualSound_nonlinStage_tanh", "Properties.C16.dualSound_nonlinStage_sigmoid", "Properties.C16.leakyStage_not_dual_sound_at_kink", "Properties.C16.dualSoundOn_compStage", "Properties.C16.dualSoundNet_affNet", "Properties.C16.dualSound_couplingStage_of_el", "Properties.C16.dualSound_couplingStage_affine", "Properties.C16.dualSound_couplingStage_additive", "Properties.C16.flow_glow_block_logprob_dual_sound", "Properties.C16.flow_glow_block_accepted", "Properties.C16.dualSoundNear_compStage", "Properties.C16.flow_logprob_dual_sound_near", "Properties.C16.dualSoundNear_nonlinStage_exp_inv", "Properties.C16.expInvStage_not_dual_sound",
+    "Properties.C16.dualSoundOn_couplingStage_of_el", "Properties.C16.rqSplineTails_dual_param_curve", "Properties.C16.dualSound_couplingStage_rqTails", "Properties.C16.flow_logprob_dual_sound_on", "Properties.C16.flow_rq_coupling_logprob_dual_sound", "Properties.C16.couplingAdm_example",]
 RULE = ("registry x regimes x directions; leaves = inputs, the recorded conditioner output (replaced by a fresh leaf through a forward hook) or the layer's own "
         "parameters; random cotangents r, r' and 2 random directions per case; compare <autograd grad, direction> with the dual-number tangent of "
         "sum(out*r)+sum(ld*r') from the Lean model; distinct = (entry, regime, direction, dir index); non-trivial = derivative non-zero")
